@@ -317,7 +317,8 @@ def run(ctx):
             if body and isinstance(body[-1], ast.Raise) and body[-1].exc is None:
                 for st_ in body[:-1]:
                     t = norm(st_)
-                    if t.startswith(f"{n.name}.stacktrace.append(") and "str(pos)" in t:
+                    mentions_pos = any(isinstance(x, ast.Name) and x.id == inv.params[-1] for x in ast.walk(st_))
+                    if t.startswith(f"{n.name}.stacktrace.append(") and mentions_pos:
                         ok = True
     ctx.check("C20.trace", inv, None, ok,
               "invoke() no longer appends the call position to the stack trace before re-raising",
